@@ -49,7 +49,7 @@ Definition runchk nS nA P R av ab ini g conv ex V C pol Pi iv Vstar r h (l : lis
 
 CLAUSES = ["wfb", "c_initdist", "c_conv", "c_closed", "c_det", "c_avail", "c_cons", "c_fix", "c_upper",
            "c_init", "c_steps"]
-RUN_CLAUSES = ["c_fix", "admissible", "run_ok", "sync_ok"]
+RUN_CLAUSES = ["wfb", "c_closed", "c_fix", "admissible", "run_ok", "sync_ok"]
 
 
 def up(x):
@@ -380,6 +380,9 @@ def run(ctx):
                     anc_bad.append(i)
             continue
         names = CLAUSES if kind == "chk" else RUN_CLAUSES
+        if not isinstance(v, list) or len(v) != len(names):
+            ctx.violation("C03:coq-evaluation-failed", {"case": case, "kind": kind, "error": "unexpected value %r" % (v,)}, found=False)
+            continue
         failed = [c for c, okv in zip(names, v) if not okv]
         if kind == "chk":
             nchk += 1
